@@ -22,7 +22,7 @@ def BodyOK (coll : List (TSurf α × Int)) (gs : List (V3 α → α)) : Prop := 
 theorem plane_part (ok : TranscOK α) (a b c d : α) (h : 0 < a * a + b * b + c * c) :
     ∃ t, convertCard (0:α) 0 "p" [a, b, c, d] = some [(t, 1)] ∧ Same t fun p => a * p.x + b * p.y + c * p.z - d := by
   obtain ⟨t, hs, hsame⟩ := plane4_same ok a b c d h
-  exact ⟨t, by show (cadOf (0:α) 0 "p" [a, b, c, d]).bind convertSurf = _; exact hs, hsame⟩
+  exact ⟨t, by show (cadOf (0:α) 0 "p" [a, b, c, d]).bind convertSurf = _; rw [planeCard_convert ok a b c d h]; exact hs, hsame⟩
 
 theorem facet_pos {t : TSurf α} {g g' : V3 α → α} (h : Same t g) (e : ∀ p, g p = g' p) : FacetOK (t, 1) g' :=
   Or.inl ⟨rfl, h.congr e⟩
